@@ -129,6 +129,11 @@ Fixpoint groupedb (f : file) : bool :=
   | l :: r => negb (existsb (fun x => fst x =? fst l) (drop_chrom (fst l) r)) && groupedb r
   end.
 Definition wf_lineb (l : line) : bool := negb (fst l =? 0) && (1 <=? snd l).
+(* each chromosome's lines are contiguous: between two lines of one chromosome there is no other *)
+Definition grouped (f : file) : Prop :=
+  forall p a m b s, f = p ++ a :: m ++ b :: s -> fst a = fst b -> forall x, In x m -> fst x = fst a.
+(* a line parse_line accepts, of at least one byte *)
+Definition wf_line (l : line) : Prop := fst l <> 0 /\ 1 <= snd l.
 
 (* what a BufReader over FileView::new(file, lo, hi) delivers line by line when lo and hi are
    line starts: the lines starting in [lo, hi) ([hi] = None: to the end of the file) *)
